@@ -219,6 +219,8 @@ def search(ctx, deep=False):
         par = ('ggm',) if rng.random() < 0.5 else ('custom', gens.rotated_basis(rng, d, True), True,
                                                    'Custom')
         bs += [('derived', par, how, int(rng.integers(0, 2**31)))]*2
+        bs.append(('custom', gens.signed_shuffled_basis(rng, d, True), True, 'Custom'))
+        bs.append(('custom', gens.signed_shuffled_basis(rng, d, True)[:int(rng.integers(2, d*d))], True, 'Custom'))
         if d in (2, 4):
             bs.append(('pauli',))
         if d == 2:
